@@ -91,7 +91,11 @@ func (f *fakeNet) GetTransactionPayload(ref hash.SHA256Hash) ([]byte, error) {
 
 func (f *fakeNet) CreateTransaction(ctx context.Context, tpl network.Template) (dag.Transaction, error) {
 	f.calls++
-	if f.outcome == "fail" {
+	outcome := f.outcome
+	if a := curActor(); a != nil {
+		outcome = a.net // concurrent requests: the answer is scripted per request
+	}
+	if outcome == "fail" {
 		return nil, errScriptedNetwork
 	}
 	for _, prev := range tpl.AdditionalPrevs {
@@ -157,6 +161,9 @@ func (d *deco) NewVerificationMethod(ctx context.Context, c did.DID, f orm.DIDKe
 	return d.real.NewVerificationMethod(ctx, c, f)
 }
 func (d *deco) Commit(ctx context.Context, ch orm.DIDChangeLog) error {
+	if a := curActor(); a != nil {
+		a.sched.At(a.name, "commit") // scheduling point of concurrent requests: before every MethodManager.Commit
+	}
 	return d.w.onCommit(d, ctx, ch)
 }
 func (d *deco) IsCommitted(ctx context.Context, ch orm.DIDChangeLog) (bool, error) {
@@ -177,6 +184,8 @@ type world struct {
 	net   *fakeNet
 	amb   didnuts.Ambassador
 	mgr   *didsubject.SqlManager
+	obs   *didsubject.SqlManager // same database through the engine's own (ungated) handle: observations of the driver
+	preVMs map[string]bool
 	res   didsubject.Resolver
 	ctx   context.Context
 	order []string // insertion order of the method manager map (biases Go's map iteration)
@@ -192,8 +201,14 @@ type opRun struct {
 	stopAfter int // stop after this many CommitMethod calls have returned (0 = right after Tx1); -1 = never
 	commits   []commitRec
 	tx1Logged bool
+	tx1Out    string
 	op        string
 	subject   string
+	p         string // request goroutine (model: Procs); "" = the sequential driver goroutine (p1)
+	finished  bool
+	newIDs    []string
+	keys      []string
+	published bool
 }
 
 type commitRec struct {
@@ -295,14 +310,40 @@ func (w *world) restart() {
 	for _, m := range w.order {
 		mm[m] = &deco{method: m, real: real[m], w: w}
 	}
-	w.mgr = didsubject.New(w.db, mm, w.keys, []string{"web", "nuts"})
+	// the SqlManager's own database handle is gated (scheduling points of concurrent requests, see conc_test.go)
+	w.mgr = didsubject.New(w.gatedDB(), mm, w.keys, []string{"web", "nuts"})
+	w.obs = didsubject.New(w.db, real, w.keys, []string{"web", "nuts"})
 }
 
 func (w *world) onCommit(d *deco, ctx context.Context, ch orm.DIDChangeLog) error {
 	r := w.cur
+	if a := curActor(); a != nil {
+		r = a.run
+		r.newIDs = append(r.newIDs, ch.DIDDocumentVersionID)
+		// keys created by this request: verification methods of its version that no earlier version of the DID has
+		var vms, earlier []string
+		w.db.Table("did_document_to_verification_method").Where("did_document_id = ?", ch.DIDDocumentVersionID).Pluck("verification_method_id", &vms)
+		w.db.Raw("SELECT j.verification_method_id FROM did_document_to_verification_method j JOIN did_document_version v ON v.id = j.did_document_id WHERE v.did = ? AND v.version < ?",
+			ch.DIDDocumentVersion.DID.ID, ch.DIDDocumentVersion.Version).Scan(&earlier)
+		old := map[string]bool{}
+		for _, vm := range earlier {
+			old[vm] = true
+		}
+		for _, vm := range vms {
+			if !w.preVMs[vm] && !old[vm] {
+				r.keys = append(r.keys, vm)
+			}
+		}
+	}
 	if r == nil {
 		return d.real.Commit(ctx, ch)
 	}
+	pubBefore := len(w.net.published)
+	defer func() {
+		if len(w.net.published) > pubBefore {
+			r.published = true
+		}
+	}()
 	if !r.tx1Logged {
 		w.logTx1(r, "changed")
 	}
@@ -315,7 +356,11 @@ func (w *world) onCommit(d *deco, ctx context.Context, ch orm.DIDChangeLog) erro
 		rec.Res, rec.Err = "fail", err.Error()
 	}
 	r.commits = append(r.commits, rec)
-	w.event(map[string]any{"ev": "commit", "m": d.method, "res": rec.Res})
+	ev := map[string]any{"ev": "commit", "m": d.method, "res": rec.Res, "p": r.proc()}
+	if rec.Err != "" {
+		ev["err"] = rec.Err
+	}
+	w.event(ev)
 	if r.stopAfter == len(r.commits) {
 		panic(stopSentinel{at: fmt.Sprintf("after-commit-%d", len(r.commits))})
 	}
@@ -328,4 +373,11 @@ func (w *world) onIsCommitted(d *deco, ch orm.DIDChangeLog, ok bool, err error) 
 		rec["err"] = err.Error()
 	}
 	w.sweepCalls = append(w.sweepCalls, rec)
+}
+
+func (r *opRun) proc() string {
+	if r.p == "" {
+		return "p1"
+	}
+	return r.p
 }
